@@ -306,6 +306,38 @@ def c13e_all_fields(ctx, prog, impls):
         ctx.fail(o, "(program)", "expected >= 8 field-wise StableHash impls with a known field list, found %d" % n)
 
 
+ZST_OK = re.compile(r"^\(\)$|PhantomData|RangeFull|PhantomPinned|Infallible|^!$")
+
+
+def c13e_nonempty(ctx, prog, impls):
+    """Every StableHash impl of a type that carries information feeds the hasher on every path: an impl that feeds nothing
+    makes all values of the type collide."""
+    o = ctx.ob("C13.e", "every-impl-feeds-the-hasher", "K2", "a StableHash impl for a non-zero-sized type reaches a hasher write / nested stable_hash on every path")
+    n = 0
+    for im, b in impls:
+        sty = im["self_ty"]
+        if ZST_OK.search(sty):
+            continue
+        adt = prog.adts.get(im.get("self_adt") or "")
+        if adt is not None and adt["adt_kind"] == "Struct" and not adt["variants"][0]["fields"]:
+            continue
+        if adt is not None and adt["adt_kind"] == "Enum" and not adt["variants"]:
+            continue
+        n += 1
+        evs = hash_events(b)
+        # closures that hash on behalf of the body (sub_hash callbacks) count as events of the body through the sub_hash call
+        if not evs:
+            ctx.touch(b)
+            ctx.fail(o, Site(b, 0, 0), "StableHash for `%s` feeds nothing to the hasher: every value of the type has the same fingerprint" % short(sty))
+            continue
+        if b.must_pass([0], [e.bb for e in evs]):
+            ctx.touch(b)
+            ctx.fail(o, Site(b, 0, 0), "StableHash for `%s` has a path that feeds nothing to the hasher" % short(sty))
+    o.sites = n
+    if n < 80:
+        ctx.fail(o, "(program)", "expected >= 80 StableHash impls of non-zero-sized types, found %d" % n)
+
+
 def is_unordered(im):
     adt = im.get("self_adt") or ""
     if adt in UNORDERED:
@@ -531,3 +563,4 @@ def run(ctx):
     ctx.run_clause("C13.d", lambda c: c13d_casts(c, prog, impls))
     ctx.run_clause("C13.e", c13e)
     ctx.run_clause("C13.e", lambda c: c13e_all_fields(c, prog, impls))
+    ctx.run_clause("C13.e", lambda c: c13e_nonempty(c, prog, impls))
